@@ -25,6 +25,8 @@ def gen(rnd):
     D["default"] = rnd.random() < 0.5
     D["in_method"] = rnd.random() < 0.5  # condition inside a method called by one transaction
     D["cond_call"] = rnd.choice([None, "if", "enable"]) if D["in_method"] else None
+    # an intermediate method between the transaction and the host: the *outer* call is conditional, the call of the host is plain
+    D["chain"] = D["in_method"] and rnd.random() < 0.4
     D["share"] = rnd.random() < 0.5  # outside transactions sharing callees
     nbr = D["nb"] + (1 if D["default"] else 0)
     br = [sorted(rnd.sample(range(D["nm"]), rnd.randint(0, min(2, D["nm"])))) for _ in range(nbr)]
@@ -78,14 +80,23 @@ class Emit(Elaboratable):
             def _():
                 block()
 
+            target = host
+            if D["chain"]:
+                outer = Method(name="outer")
+
+                @def_method(m, outer)
+                def _():
+                    host(m)
+
+                target = outer
             with Transaction(name="caller").body(m, ready=self.tr):
                 if D["cond_call"] == "if":
                     with m.If(self.cc):
-                        host(m)
+                        target(m)
                 elif D["cond_call"] == "enable":
-                    host(m, enable_call=self.cc)
+                    target(m, enable_call=self.cc)
                 else:
-                    host(m)
+                    target(m)
             self.P = host
         else:
             with (t := Transaction(name="P")).body(m, ready=self.pr):
@@ -120,7 +131,7 @@ def run_one(rec, rnd, idx, max_cycles):
         inputs = e.cond + e.mr + [e.pr, e.tr, e.cc] + e.orr
         n = len(inputs)
         nb = D["nb"]
-        tag = f"nb{nb}d{int(D['default'])}nbk{int(D['nonblocking'])}p{int(D['priority'])}m{int(D['in_method'])}{D['cond_call']}s{int(D['share'])}"
+        tag = f"nb{nb}d{int(D['default'])}nbk{int(D['nonblocking'])}p{int(D['priority'])}m{int(D['in_method'])}{D['cond_call']}ch{int(D['chain'])}s{int(D['share'])}"
 
         async def tb(ctx):
             if n <= 10:
@@ -204,7 +215,7 @@ def run_shard(spec, rec):
 
 
 RULE = ("generated condition() blocks: blocking/nonblocking x priority x with/without default, 1-4 branches with overlapping conditions, callees shared across "
-        "branches and with 1-2 outside transactions, placed in a transaction or in a host method called plainly / under If / with enable_call; all input "
+        "branches and with 1-2 outside transactions, placed in a transaction or in a host method called plainly / under If / with enable_call, directly or through an intermediate method; all input "
         "valuations when <= 10 input bits, biased random otherwise; oracle: clauses (1)-(5) of DESIGN.md C12 plus the C04 consistency condition (a merged "
         "call without its enable shows as a method running without an active call); distinct non-trivial case = (configuration, number of true "
         "conditions, branch that ran, body ran)")
